@@ -2,9 +2,9 @@
 the sum of theirs, the tested count the number of tested rules - for results over 0..3 rule tests with arbitrary
 verdicts and failure tuples, and the same for every order of the rule tests (stated for the rotated
 order: conjunction and sums do not depend on it)."""
-from pyvc.contracts import contract, Obj, Shape, Bool, TupleOf, AnyVal
+from pyvc.contracts import contract, Obj, Shape, Bool, TupleOf, AnyVal, Const
 from pyvc.sym import LTuple
-from spec.prims import same
+from spec.prims import same, as_obj, forall_idx, is_bool
 from valida.rules import RuleTest
 from valida.schema import ValidatedData
 
@@ -42,17 +42,34 @@ def total_tested(ts):
     return n
 
 
-contract("valida.schema:ValidatedData.is_valid", variants=[dict(self=VD(n)) for n in range(4)],
-         ensures=lambda self, result:
-             same(result, conj(self.rule_tests)) and same(result, conj(self.rule_tests[1:] + self.rule_tests[:1])),
+# Every aggregate is stated twice: for results over 0..3 rule tests with each test's three fields symbolic (also for the
+# rotated order), and - ghost flag `_anylen` - for a result over ANY number of rule tests (a symbolic tuple whose elements are
+# RuleTest objects with unknown fields): there the verdict is the fold of the per-test verdicts over the whole tuple
+# (pyvc/comp.py turns `all(...)` / `sum(...)` over a symbolic sequence into a recursive function of the sequence).
+def VDn():
+    return Obj(ValidatedData, rule_tests=TupleOf(RuleTest), data=AnyVal(), schema=AnyVal(), cast_data=AnyVal())
+
+
+_VARIANTS = [dict(self=VD(n), _anylen=Const(False)) for n in range(4)] + [dict(self=VDn(), _anylen=Const(True))]
+
+contract("valida.schema:ValidatedData.is_valid", variants=_VARIANTS,
+         ensures=lambda self, _anylen, result:
+             same(result, all(as_obj(t, RuleTest)._is_valid for t in self.rule_tests))
+             and (_anylen or (same(result, conj(self.rule_tests))
+                             and same(result, conj(self.rule_tests[1:] + self.rule_tests[:1])))),
          raises={}, serves=["C06"])
 contract("valida.schema:ValidatedData.num_failures", variants=[dict(self=VD(n)) for n in range(4)],
          ensures=lambda self, result:
              result == total_failures(self.rule_tests) and result == total_failures(self.rule_tests[1:] + self.rule_tests[:1]),
          raises={}, serves=["C06"])
-contract("valida.schema:ValidatedData.num_rules_tested", variants=[dict(self=VD(n)) for n in range(4)],
-         ensures=lambda self, result:
-             result == total_tested(self.rule_tests) and result == total_tested(self.rule_tests[1:] + self.rule_tests[:1]),
+contract("valida.schema:ValidatedData.num_rules_tested", variants=_VARIANTS,
+         requires=lambda self, _anylen:
+             not _anylen or forall_idx(len(self.rule_tests),
+                                      lambda j: is_bool(as_obj(self.rule_tests[j], RuleTest)._tested)),
+         ensures=lambda self, _anylen, result:
+             result == sum(as_obj(t, RuleTest)._tested for t in self.rule_tests)
+             and (_anylen or (result == total_tested(self.rule_tests)
+                             and result == total_tested(self.rule_tests[1:] + self.rule_tests[:1]))),
          raises={}, serves=["C06"])
 
 
